@@ -457,21 +457,19 @@ func bigStr(b *big.Int) string {
 
 // panicSite extracts a short stable location from a recovered panic log.
 func panicSite(log string) string {
-	// first frame inside the module under test, else first line
+	msg := strings.TrimPrefix(strings.SplitN(log, "\n", 2)[0], "recovered: ")
+	msg = trunc(stripDigits(msg), 60)
+	// first frame inside the module under test (function name: stable under unrelated edits)
 	for _, line := range strings.Split(log, "\n") {
-		if i := strings.Index(line, "noble-cctp/x/cctp/"); i >= 0 && strings.Contains(line, ".go:") {
-			s := line[i+len("noble-cctp/x/cctp/"):]
-			if j := strings.Index(s, " "); j > 0 {
-				s = s[:j]
+		if i := strings.Index(line, "github.com/circlefin/noble-cctp/x/cctp/"); i >= 0 && !strings.Contains(line, ".go:") {
+			fn := line[i+len("github.com/circlefin/noble-cctp/x/cctp/"):]
+			if j := strings.Index(fn, "("); j > 0 {
+				fn = fn[:j]
 			}
-			if j := strings.LastIndex(s, ":"); j > 0 {
-				s = s[:j] // strip line number: survives unrelated edits
-			}
-			return s
+			return fn + ":" + msg
 		}
 	}
-	l := strings.SplitN(log, "\n", 2)[0]
-	return trunc(l, 80)
+	return msg
 }
 
 // predictDeps: would the expected dependency calls succeed on the pre-state ledger?
